@@ -337,7 +337,7 @@ def insertLineage (cat : Cat) (h : InsertHead) (q : Query) : M (List (SrcCol × 
   let (down, st) ← (match h.columns with
     | some cs => pure (cs.map fun (_, n) => (⟨h.table.schema, h.table.name, some n⟩ : SrcCol), st)
     | none => do
-      let (c, st) ← getStatement cat (PR.tableNameSrc h.table.schema h.table.name) st
+      let (c, st) ← getStatement cat (StdTable.source (h.table.schema, h.table.name)) st     -- `StandardTable(…).source()` since be71fec
       pure (c.columns.map fun d => (⟨h.table.schema, h.table.name, some d.name⟩ : SrcCol), st) : Except Err (List SrcCol × St))
   let q' := setWiths h.withs q
   let (lin, st) ← selectLineage cat (fuelFor q') q' { st with subq := [], withT := [] }
